@@ -11,10 +11,20 @@ Definition wp {A} (m : M A) (Q : A -> pset -> Prop) (s : pset) : Prop :=
 Lemma wp_ret {A} (a : A) (Q : A -> pset -> Prop) s : Q a s -> wp (ret a) Q s.
 Proof. intros H r [<-|[]]. exact H. Qed.
 
+Lemma bind_flat {A B} (m : M A) (f : A -> M B) s :
+  bind m f s = flat_map (fun r => match r with
+                                  | Ret a s' => f a s'
+                                  | Deadlock => [Deadlock] | Panicked => [Panicked] | OutOfFuel => [OutOfFuel]
+                                  end) (m s).
+Proof.
+  unfold bind. destruct (m s) as [|r [|r' l]]; [reflexivity| |destruct r; reflexivity].
+  destruct r; cbn [flat_map]; try reflexivity. now rewrite app_nil_r.
+Qed.
+
 Lemma wp_bind {A B} (m : M A) (f : A -> M B) (Q : B -> pset -> Prop) s :
   wp m (fun a s' => wp (f a) Q s') s -> wp (bind m f) Q s.
 Proof.
-  intros H r Hr. unfold bind in Hr. apply in_flat_map in Hr as (r0 & H0 & H1).
+  intros H r Hr. rewrite bind_flat in Hr. apply in_flat_map in Hr as (r0 & H0 & H1).
   specialize (H r0 H0). destruct r0; try contradiction. exact (H r H1).
 Qed.
 
